@@ -74,3 +74,4 @@ func VP_C14_Log() {
 	zzvp.Assert(ok, "log lists exactly the min(k, length) most recent commits of HEAD's parent chain, newest first, each once")
 	zzvp.Done()
 }
+
